@@ -158,13 +158,15 @@ def kernel_sweeps(ctx, scale):
     """The kernel sweep shared by C05 (outputs) and C07 (memory/ABI): C side by symbol in both
     cdrv variants, Rust side through Platform in the three crate flavours."""
     ctx.cdrv_kernels = {}
-    core.cdrv_run(ctx, "kernels/cdrv-asm", "asm", "native", "kernels", scale=scale)
-    core.cdrv_run(ctx, "kernels/cdrv-int", "int", "native", "kernels", scale=scale * 0.5)
-    core.cdrv_run(ctx, "kernels/cdrv-int-clang-O0", "int", "clangO0", "kernels", scale=scale * 0.1, exe=cbuild_mod().build("int", "clangO0"))
+    # for C05 a kernel call that dies instead of returning is a wrong result as well
+    died = (lambda sig: sig.startswith("C07/") and "fatal-signal" in sig) if ctx.pid == "C05" else None
+    core.cdrv_run(ctx, "kernels/cdrv-asm", "asm", "native", "kernels", scale=scale, adopt=died)
+    core.cdrv_run(ctx, "kernels/cdrv-int", "int", "native", "kernels", scale=scale * 0.5, adopt=died)
+    core.cdrv_run(ctx, "kernels/cdrv-int-clang-O0", "int", "clangO0", "kernels", scale=scale * 0.1, exe=cbuild_mod().build("int", "clangO0"), adopt=died)
     # the library's own preprocessor configurations (a kernel's tail hands over to another level)
     import cbuild
     for tag, ld in (("no-sse41", ["-DBLAKE3_NO_SSE41"]), ("no-avx512-no-avx2", ["-DBLAKE3_NO_AVX512", "-DBLAKE3_NO_AVX2"]), ("no-sse2", ["-DBLAKE3_NO_SSE2"])):
-        core.cdrv_run(ctx, "kernels/cdrv-int-" + tag, "int", "native", "kernels", scale=scale * 0.15,
+        core.cdrv_run(ctx, "kernels/cdrv-int-" + tag, "int", "native", "kernels", scale=scale * 0.15, adopt=died,
                       exe=cbuild.build("int", "native", name="cdrv_int_" + tag.replace("-", "_"), lib_defs=ld))
     ctx.mon("kernels/rust-asm", "asm", "debug", ["kern", "--scale", str(scale)])
     ctx.mon("kernels/rust-intr", "intr", "debug", ["kern", "--scale", str(scale * 0.5)])
